@@ -18,6 +18,10 @@ Conj(q, lb, g, ext, bits, ln, cr) ==
         querySec == IF qs0 >= GrindingFloor THEN qs0 + g ELSE qs0
     IN  Min2(Min2(fieldSec, querySec) - 1, cr)
 
+\* documented digest sizes of the six hash functions in bits (Blake3 / SHA-3: output bytes; Rescue: four field elements of 64 resp.
+\* 62 significant bits); generic collision resistance is half the digest size
+DigestBits == [blake3_192 |-> 192, blake3_256 |-> 256, sha3_256 |-> 256, rp64_256 |-> 256, rpjive64_256 |-> 256, rp62_248 |-> 248]
+CollisionResistance(h) == DigestBits[h] \div 2
 AcceptMin(level, minimum) == level >= minimum
 
 \* The proven estimate is a maximum over the proximity parameter m of the list-decoding regime.  Theorem 8 of eprint 2022/1216
